@@ -101,6 +101,17 @@ MonRoundTrip(e1, e2) ==
   IsRoundTrip(e1, e2) => RoundTripOut(e1, e2) <= RoundTripIn(e1) + RoundTripTol(e1)
 RoundTripProfit(e1, e2) == RoundTripOut(e1, e2) - RoundTripIn(e1)
 
+(* the DESIGN's round trip for the same input: the precise Increase; Decrease from the logged pre-state and
+   arguments of the open (used to tell a known design-level profit from one the code makes worse) *)
+DesignRoundTrip(e1, e2) ==
+  LET r1 == Apply(e1)
+      r2 == Decrease(r1.p, r1.m, e2.px, r1.p.size, e2.a.acc, e2.a.wd,
+                     [insolvent |-> e2.a.insolvent, liq |-> FALSE, cap |-> e2.a.cap])
+      d1 == [e1 EXCEPT !.ok = r1.ok, !.rep = r1.rep]
+      d2 == [e2 EXCEPT !.ok = r2.ok, !.rep = r2.rep]
+      done == r1.ok /\ r2.ok /\ r2.rep.remove
+  IN [ok |-> done, profit |-> IF done THEN RoundTripProfit(d1, d2) ELSE 0]
+
 (* governance convention on the position impact caps (not enforced by the code) *)
 CapConvention(c) == c.maxPosImp <= c.maxNegImp
 
